@@ -83,6 +83,14 @@ def promoted_bytes(body, k):
     return out
 
 
+def v_len(c):
+    v = c.get("v", {})
+    for key in ("indirect", "ptr", "slice"):
+        if key in v and isinstance(v[key], dict) and "len" in v[key]:
+            return v[key]["len"] - v.get("off", 0)
+    return None
+
+
 def is_local(place, l=None):
     return place is not None and not place["p"] and (l is None or place["l"] == l)
 
@@ -358,11 +366,11 @@ class Facts:
         if c is None:
             raise AnchorMissing("const/static not found: " + name)
         ty = c["ty"]
-        m = re.match(r"^\[([iu])(8|16|32|64|size); (\d+)\]$", ty)
+        m = re.match(r"^\[([iu])(8|16|32|64|size); ([^\]]+)\]$", ty)
         if not m:
             raise AnchorMissing("const %s has unsupported type %s" % (name, ty))
         sz = {"8": 1, "16": 2, "32": 4, "64": 8, "size": 8}[m.group(2)]
-        n = int(m.group(3))
+        n = int(m.group(3)) if m.group(3).isdigit() else None
         if "bytes" in c:
             b = bytes.fromhex(c["bytes"])
         else:
@@ -371,6 +379,8 @@ class Facts:
             if not src or "bytes" not in src:
                 raise AnchorMissing("const %s has no byte image" % name)
             b = bytes.fromhex(src["bytes"])[v.get("off", 0):]
+        if n is None:
+            n = (c.get("len") or v_len(c) or len(b)) // sz
         if len(b) < n * sz:
             raise AnchorMissing("const %s byte image too short" % name)
         return [int.from_bytes(b[i * sz:(i + 1) * sz], "little", signed=(m.group(1) == "i")) for i in range(n)]
